@@ -346,6 +346,12 @@ def dict_method(interp, d: dict, name, args, kwargs):
             if interp.truth(args[0] == k):
                 return d[k]
         return args[1] if len(args) > 1 else None
+    if name == "get" and args and isinstance(args[0], SStr) and all(isinstance(k, str) for k in d):
+        # concrete table with string keys, structured-string key: the structured equality decides each comparison (or fails closed)
+        for k in d:
+            if interp.truth(equals(interp, args[0], k)):
+                return d[k]
+        return args[1] if len(args) > 1 else None
     if name in ("get", "pop", "setdefault", "update"):
         if args and isinstance(args[0], Sym):
             raise Unsupported(f"dict.{name} with symbolic key")
